@@ -517,9 +517,34 @@ class Interp:
                     return t
                 return Split(t.cond, after(t.t), after(t.f))
             return after(t)
+        if l["k"] == "field" and l["base"].get("k") == "path" and l["base"].get("res") == "local":
+            # `s.field = v` on a local holding a struct value (builder-style setters): the struct value is updated
+            cur = env.get(l["base"]["id"])
+            if cur is not None and cur[0] == "struct":
+                fs = dict(cur[2])
+                fs[l["name"]] = self.ev(e["r"], env)
+                env[l["base"]["id"]] = ("struct", cur[1], fs)
+                return Leaf("fall", UNIT, env)
         if self.mentions_buf(l, env):
             raise Unanalysable("assignment into a tracked buffer at line %s" % e["sp"][0])
         return Leaf("fall", UNIT, env)
+
+    def struct_call(self, name, args):
+        """value of a call of a local function that returns one of the crate's plain structs (constructor / `with_x(self, ..) -> Self`
+        setter): the struct value with its fields, or None"""
+        h = self.hir.get(name)
+        if not h or self.depth > 12:
+            return None
+        adt = self.u.adts.get(h.get("ret", ""))
+        if not adt or adt.get("kind") != "Struct":
+            return None
+        try:
+            v = self.call_value(name, args)
+        except (Unanalysable, RecursionError, KeyError, IndexError, TypeError):
+            return None
+        def is_struct(x):
+            return x[0] == "struct" or (x[0] == "if" and is_struct(x[2]) and is_struct(x[3]))
+        return v if is_struct(v) else None
 
     def cond_value(self, c, env, env_then):
         """evaluate an `if` condition; `let` patterns bind into env_then"""
@@ -1088,6 +1113,10 @@ class Interp:
                 return self.call_value(name, args)
             except Unanalysable:
                 pass
+        if name in self.hir:
+            sv = self.struct_call(name, args)
+            if sv is not None:
+                return sv
         if name in self.hir and self.hir[name].get("ret") in SCALAR_RET and self.depth < 12:
             # a local helper returning a scalar (e.g. a per-sample field computation moved into its own function): look through it
             try:
@@ -1236,6 +1265,10 @@ class Interp:
                 return self.call_value(name, [recv] + args)
             except Unanalysable:
                 pass
+        if name in self.hir:
+            sv = self.struct_call(name, [recv] + args)
+            if sv is not None:
+                return sv
         return ("mcall", sname, recv, tuple(self.opaque_arg(a) for a in args))
 
     def opaque_arg(self, a):
